@@ -12,7 +12,8 @@ pub struct Number {
 }
 impl PartialEq for Number {
     fn eq(&self, other: &Self) -> bool {
-        (self.value - other.value).abs() / self.value.abs() <= f64::EPSILON
+        (self.value - other.value).abs()
+            <= f64::EPSILON * self.value.abs().max(other.value.abs())
     }
 }
 impl Eq for Number {}
